@@ -207,7 +207,7 @@ void QueueingRDMController::HandleRDMResponse(RDMReply *reply) {
         m_frames.clear();
         TakeNextAction();
       } else {
-        DispatchNextRequest();
+        ContinueOverflowSequence();
       }
       return;
     }
@@ -217,13 +217,25 @@ void QueueingRDMController::HandleRDMResponse(RDMReply *reply) {
     m_response.reset(reply->Response()->Duplicate());
     m_frames.insert(m_frames.end(), reply->Frames().begin(),
                     reply->Frames().end());
-    DispatchNextRequest();
+    ContinueOverflowSequence();
   } else {
     // Just pass the RDMReply on.
     RunCallback(reply);
     TakeNextAction();
   }
 }
+
+/*
+ * Request the next part of an ACK_OVERFLOW response. The request at the head
+ * of the queue is in flight again, so m_rdm_request_pending has to be set or
+ * a SendRDMRequest() / discovery call would send something else concurrently.
+ * If we've been paused, Resume() sends the request.
+ */
+void QueueingRDMController::ContinueOverflowSequence() {
+  if (m_active)
+    MaybeSendRDMRequest();
+}
+
 
 void QueueingRDMController::RunCallback(RDMReply *reply) {
   outstanding_rdm_request outstanding_request = m_pending_requests.front();
